@@ -34,6 +34,10 @@ type harness struct{}
 func (harness) Property() string { return "C16" }
 
 func (harness) Configs(tier string) []xplore.Config {
+	return xplore.WithReverse(configsBase(tier))
+}
+
+func configsBase(tier string) []xplore.Config {
 	var out []xplore.Config
 	bound := 3
 	if tier == "thorough" {
@@ -65,7 +69,7 @@ func (harness) Run(cfg xplore.Config, ch vrt.Chooser, trace bool) (xplore.Outcom
 		out.Violations = append(out.Violations, xplore.Violation{Class: class, Msg: fmt.Sprintf(format, a...)})
 	}
 	var made []*grpc.ClientConn
-	res := vrt.Run(ch, vrt.Options{Trace: trace}, func() {
+	res := vrt.Run(ch, vrt.Options{Reverse: cfg.Reverse, Trace: trace}, func() {
 		inflight := map[string]int{}
 		var dials []*dialRec
 		slowGate := make(chan struct{})
